@@ -716,7 +716,7 @@ class BinaryOp(Expr):
 
             c_type = {
                 Type.INTEGER: ctypes.c_short,
-                Type.LONG: ctypes.c_long,
+                Type.LONG: ctypes.c_int,
                 Type.SINGLE: ctypes.c_float,
                 Type.DOUBLE: ctypes.c_double,
             }[self.type]
